@@ -162,6 +162,14 @@ def run(tier, seed):
             print("selftest FAILED: clean trace %s rejected: %s" % (t["id"], sorted(got[t["id"]])))
             bad += 1
     print("selftest core: %d corrupted traces, %d clean traces, %d problems" % (len(expect), len(base), bad))
+    # design level: the implementation-shaped layer refines the document spec with a snapshot cascade,
+    # and TLC must find the original fan-out defect when the cascade walks the live list
+    ok1, st1, _ = core.mc_impl(5, True, "self-impl-ok")
+    ok2, st2, inv = core.mc_impl(6, False, "self-impl-bug")
+    print("selftest GfaImpl: snapshot cascade %s (%d states); live-list cascade %s" % (
+        "refines Gfa" if ok1 else "FAILS", st1[1], "violates %s as expected" % inv if not ok2 else "NOT detected"))
+    if not ok1 or ok2:
+        bad += 1
     for f in sorted(glob.glob(os.path.join(os.path.dirname(__file__), "fam_*.py"))):
         m = importlib.import_module("harness." + os.path.basename(f)[:-3])
         if hasattr(m, "selftest"):
